@@ -86,6 +86,7 @@ type region struct {
 	mode             Mode  // mode the region was forked in
 	live             int32 // current mode (atomic): Drive may degrade to Record
 	extraEnters      int
+	progress         int64 // steps taken by all workers (atomic); liveness evidence for freeRun
 }
 
 // Controller owns the hook table.
@@ -301,6 +302,7 @@ func (c *Controller) step(outStart, outEnd, dataStart, dataEnd, row, col int) {
 		w.lastIV = cur
 	}
 	w.steps++
+	atomic.AddInt64(&r.progress, 1)
 	switch r.cur() {
 	case Drive:
 		r.events <- event{w, 1}
@@ -544,7 +546,10 @@ func (c *Controller) freeRun(r *region, parked map[*worker]bool, _ int) {
 	for w := range parked {
 		w.resume <- struct{}{}
 	}
+	// the verdict "hang" is about absence of progress, not about speed:
+	// the grace period restarts whenever a worker took a step or exited
 	deadline := time.Now().Add(c.Grace)
+	lastProgress, lastLive := atomic.LoadInt64(&r.progress), -1
 	for {
 		drained := false
 		for !drained {
@@ -568,8 +573,12 @@ func (c *Controller) freeRun(r *region, parked map[*worker]bool, _ int) {
 		if live == 0 {
 			return
 		}
+		if p := atomic.LoadInt64(&r.progress); p != lastProgress || live != lastLive {
+			lastProgress, lastLive = p, live
+			deadline = time.Now().Add(c.Grace)
+		}
 		if time.Now().After(deadline) {
-			c.violate("hang", "%d workers neither reached a yield point nor exited within %v while the region was finished free-running", live, c.Grace)
+			c.violate("hang", "%d workers neither took a step nor exited within %v while the region was finished free-running", live, c.Grace)
 			return
 		}
 		time.Sleep(20 * time.Microsecond)
